@@ -975,7 +975,16 @@ impl NodeDeletionEntry {
     ) -> std::result::Result<(), rusqlite::Error> {
         let query = "DELETE FROM _node WHERE room_id=? AND id=?";
         let mut stmt = conn.prepare_cached(query)?;
+        let mut stored_stmt =
+            conn.prepare_cached("SELECT mdate FROM _node WHERE room_id=? AND id=?")?;
         for node in nodes {
+            //the stored version can be more recent than the deleted one: its day must be recomputed too
+            let stored_mdate: Option<i64> = stored_stmt
+                .query_row((node.room_id, node.id), |row| row.get(0))
+                .optional()?;
+            if let Some(stored_mdate) = stored_mdate {
+                daily_log.set_need_update(node.room_id, &node.entity, stored_mdate);
+            }
             stmt.execute((node.room_id, node.id))?;
             node.write(conn)?;
             daily_log.set_need_update(node.room_id, &node.entity, node.deletion_date);
